@@ -16,8 +16,6 @@ def _not_assignable(x, augassign=False):
     if augassign and isinstance(x, ast.Tuple | ast.List):
         return "literal"
     elif isinstance(x, ast.Tuple | ast.List):
-        if len(x.elts) == 0:
-            return "()"
         for i in x.elts:
             res = _not_assignable(i)
             if res is not None:
